@@ -219,11 +219,9 @@ class ABCInterfaceClass(InterfaceClass):
         return name.startswith('__r') and name.endswith('__')
 
     def __method_from_function(self, function, name):
-        method = fromFunction(function, self, name=name)
         # Eliminate the leading *self*, which is implied in
         # an interface, but explicit in an ABC.
-        method.positional = method.positional[1:]
-        return method
+        return fromFunction(function, self, imlevel=1, name=name)
 
     def __register_classes(self, conformers=None, ignored_classes=None):
         # Make the concrete classes already present in our ABC's registry
